@@ -526,8 +526,10 @@ package wire
 //@   requires srv != nil && srv.Server != nil
 //@   ensures [hook-once] srv.Server.TerminateConn != nil ==> #nTerminate == old(#nTerminate) + 1
 //@   ensures [no-hook] srv.Server.TerminateConn == nil ==> (#nTerminate == old(#nTerminate) && result == nil)
+//@   ensures [hook-result] srv.Server.TerminateConn != nil ==> (#termErrNil <==> result == nil)
+//@   ensures [err-kind] result != nil ==> !isExceeded(result)
 //@   ensures [out-silent] OutSame()
-//@   modifies #nTerminate
+//@   modifies #nTerminate, #termErrNil
 
 //@ func (*Session).writeParameterDescription
 //@   props C02 C06 C08 C20 C04
@@ -612,15 +614,17 @@ package wire
 //@   ensures [not-exceeded-passthrough] !isExceeded(exceeded) ==> (err == exceeded && OutSame())
 //@   ensures [skip-report-continue] {C10} (isExceeded(exceeded) && err == nil) ==> (reader.Buffer.#pos == old(reader.Buffer.#pos) + max(excSize(exceeded), 0) && #nE == old(#nE) + 1 && #E_C == specCode(exceeded) && #E_S == (specSeverity(exceeded) == "" ? "ERROR" : specSeverity(exceeded)))
 //@   ensures [ok] ReaderOK(reader)
+//@   ensures [error-once] #nE <= old(#nE) + 1 && #nE >= old(#nE) && #nZ <= old(#nZ) + 1
+//@   ensures [err-kind] err != nil ==> (err == exceeded || !isExceeded(err))
 //@   ensures [alloc-bound] {C04 C10} #maxalloc <= max(old(#maxalloc), max(reader.MaxMessageSize, 4096))
 //@   ensures [no-overwrite] {C18} (wa <= old(#alloc) && Exposed(old(reader.Msg), wa, wi)) ==> (mem(wa, wi) == old(mem(wa, wi)) && Exposed(reader.Msg, wa, wi))
-//@   modifies reader.Buffer.#pos, reader.Msg, memtail(reader.Msg), WriterState(writer), Out()
+//@   ensures [pos-monotone] reader.Buffer.#pos >= old(reader.Buffer.#pos)
+//@   modifies reader.Buffer.#pos, reader.Msg, memtail(reader.Msg), WriterState(writer), Out(), #maxalloc, #nalloc
 
 //@ func (*Session).handleSimpleQuery
 //@   props C05 C02 C04
 //@   requires HOK(srv, reader, writer, ctx)
-//@   requires [cycle-idle] #cyc == 0
-//@   ensures [one-Z-last] {C05} result == nil ==> (#nZ == old(#nZ) + 1 && #last == 'Z' && #cyc == 3)
+//@   ensures [one-Z-last] {C05} result == nil ==> (#nZ == old(#nZ) + 1 && #last == 'Z' && (old(#cyc) == 0 ==> #cyc == 0))
 //@   ensures [error-once] {C05} #nE <= old(#nE) + 1 && #nE >= old(#nE)
 //@   ensures [no-Z-on-failure] {C05} result != nil ==> #nZ == old(#nZ)
 //@   ensures [err-kind] result != nil ==> !isExceeded(result)
@@ -628,11 +632,12 @@ package wire
 //@   atreturn [parser-error-E-Z] {C05} (result == nil && Value_trim(query) != "" && #nParse == old(#nParse) + 1 && #nExec == old(#nExec)) ==> (#nE == old(#nE) + 1 || len(statements) > 0)
 //@   callsite callback:wire.ParseFn [query-exact] {C03 C05} $query == query && $ctx == ctx
 //@   callsite callback:wire.PreparedStatementFn [stmt-args] {C05} $ctx == ctx && $self == statements[index].fn && len($parameters) == 0 && cast($writer, "*wire.dataWriter").client == writer && cast($writer, "*wire.dataWriter").columns == statements[index].columns
-//@   modifies ConnEffects(srv, reader, writer, ctx)
+//@   ensures [pos-monotone] reader.Buffer.#pos >= old(reader.Buffer.#pos)
+//@   modifies HandlerEffects(srv, reader, writer, ctx)
 //@   loop 0
 //@     invariant [ok] HOK(srv, reader, writer, ctx)
 //@     invariant [range] -1 <= $index && $index + 1 <= len(statements)
-//@     invariant [cycle] #cyc == 0 && #nZ == old(#nZ) && #nE == old(#nE)
+//@     invariant [cycle] (old(#cyc) == 0 ==> #cyc == 0) && #nZ == old(#nZ) && #nE == old(#nE)
 //@     invariant [stmts-ok] each(statements, s, s != nil && s.fn != nil && len(s.parameters) <= 65535)
 //@     invariant [counts] #nParse == old(#nParse) + 1 && #nExec == old(#nExec) + $index + 1
 //@     invariant [window] Advanced(reader.Msg, old(reader.Msg)) || arr(reader.Msg) > old(#alloc)
@@ -647,8 +652,9 @@ package wire
 //@   ensures [err-kind] result != nil ==> !isExceeded(result)
 //@   callsite iface:wire.StatementCache.Set [stores-under-name] {C07} $name == name && $fn == statement && $ctx == ctx
 //@   callsite callback:wire.ParseFn [query-exact] {C03 C06} $query == query && $ctx == ctx
-//@   atreturn [name-is-first-string] {C07} name == cstr(arr(old(reader.Msg)), off(old(reader.Msg)))
-//@   modifies ConnEffects(srv, reader, writer, ctx)
+//@   atreturn [name-is-first-string] {C07} #nParse > old(#nParse) ==> name == cstr(arr(old(reader.Msg)), off(old(reader.Msg)))
+//@   ensures [pos-monotone] reader.Buffer.#pos >= old(reader.Buffer.#pos)
+//@   modifies HandlerEffects(srv, reader, writer, ctx)
 //@   loop 0
 //@     invariant [range] 0 <= i && i <= parameters
 //@     decreases parameters - i
@@ -668,18 +674,21 @@ package wire
 //@   callsite (*wire.Session).writeParameterDescription [declared-parameters] {C08 C20} $parameters == statement.parameters
 //@   callsite (*wire.Session).writeColumnDescription [statement-columns] {C08 C07} $columns == statement.columns && len($formats) == 0
 //@   callsite (*wire.Session).writeColumnDescription [portal-formats] {C08 C07} $columns == portal.statement.columns && $formats == portal.formats
-//@   modifies ConnEffects(srv, reader, writer, ctx)
+//@   ensures [pos-monotone] reader.Buffer.#pos >= old(reader.Buffer.#pos)
+//@   modifies HandlerEffects(srv, reader, writer, ctx)
 
 //@ func (*Session).handleBind
 //@   props C06 C07 C08 C18 C02 C04
 //@   requires HOK(srv, reader, writer, ctx)
 //@   ensures [B-reply] {C06} result == nil ==> (#nOut == old(#nOut) + 1 && #last == '2' && #nE == old(#nE))
 //@   ensures [B-no-error-reply] {C06} #nE == old(#nE)
+//@   ensures [err-kind] result != nil ==> !isExceeded(result)
 //@   ensures [no-Z-unless-Sync] {C06} #nZ == old(#nZ)
 //@   atreturn [unknown-name-E] {C06} stmt == nil ==> #nE == old(#nE) + 1
 //@   callsite iface:wire.StatementCache.Get [by-name] {C07} $name == statement
 //@   callsite iface:wire.PortalCache.Bind [passes] {C07 C08} $name == name && $statement == stmt && $parameters == parameters && $columns == formats && $ctx == ctx
-//@   modifies ConnEffects(srv, reader, writer, ctx)
+//@   ensures [pos-monotone] reader.Buffer.#pos >= old(reader.Buffer.#pos)
+//@   modifies HandlerEffects(srv, reader, writer, ctx)
 
 //@ func (*Session).handleExecute
 //@   props C06 C07 C05 C02 C04
@@ -688,4 +697,42 @@ package wire
 //@   ensures [no-Z-unless-Sync] {C06} #nZ == old(#nZ)
 //@   ensures [err-kind] result != nil ==> !isExceeded(result)
 //@   callsite iface:wire.PortalCache.Execute [by-name] {C07} $name == name && $reader == reader && $writer == writer && $ctx == ctx
+//@   ensures [pos-monotone] reader.Buffer.#pos >= old(reader.Buffer.#pos)
+//@   modifies HandlerEffects(srv, reader, writer, ctx)
+
+//@ func (*Session).handleCommand
+//@   props C06 C05 C07 C13 C19 C03 C04
+//@   requires HOK(srv, reader, writer, ctx) && conn != nil
+//@   requires [caches-wellformed] forall k :: mapdom(DPC(srv.Portals).portals, k) ==> (DPC(srv.Portals).portals[k] != nil && DPC(srv.Portals).portals[k].statement != nil)
+//@   ensures [sync-one-Z] {C06} (t == 'S' && result == nil) ==> (#nZ == old(#nZ) + 1 && #nOut == old(#nOut) + 1 && #nE == old(#nE))
+//@   ensures [no-Z-unless-Sync] {C06} (t != 'S' && t != 'Q') ==> #nZ == old(#nZ)
+//@   ensures [flush-silent] {C06} t == 'H' ==> (result == nil && OutSame() && #nParse == old(#nParse) && #nExec == old(#nExec))
+//@   ensures [stray-copy-ignored] {C13} (t == 'd' || t == 'c' || t == 'f') ==> (result == nil && OutSame() && #nParse == old(#nParse) && #nExec == old(#nExec))
+//@   ensures [close-complete] {C06} t == 'C' ==> (result == nil && #nZ == old(#nZ) && #nE == old(#nE) && (#failed || (#nOut == old(#nOut) + 1 && #last == '3')))
+//@   ensures [close-removes] {C07} (t == 'C' && IsDSC(srv.Statements) && old(mem(arr(reader.Msg), off(reader.Msg))) == 'S') ==> !mapdom(DSC(srv.Statements).statements, cstr(arr(old(reader.Msg)), off(old(reader.Msg)) + 1))
+//@   ensures [terminate-stops] {C19} t == 'X' ==> (result != nil && #nTerminate <= old(#nTerminate) + 1 && OutSame() && #nParse == old(#nParse) && #nExec == old(#nExec))
+//@   ensures [terminate-closes] {C19} (t == 'X' && (srv.Server.TerminateConn == nil || #termErrNil)) ==> #connClosed == old(#connClosed) + 1
+//@   ensures [simple-query-one-Z] {C05} (t == 'Q' && result == nil) ==> (#nZ == old(#nZ) + 1 && #last == 'Z' && (old(#cyc) == 0 ==> #cyc == 0))
+//@   ensures [error-once] {C06 C05} #nE <= old(#nE) + 1 && #nE >= old(#nE)
+//@   ensures [cancelled-at-end] {C19} #ncancel == old(#ncancel) + 1
+//@   ensures [err-kind] (result != nil && t != 'X') ==> !isExceeded(result)
+//@   ensures [unknown-type-E] {C06} (t != 'Q' && t != 'E' && t != 'P' && t != 'D' && t != 'S' && t != 'B' && t != 'H' && t != 'd' && t != 'c' && t != 'f' && t != 'C' && t != 'X' && result == nil) ==> #nE == old(#nE) + 1
+//@   callsite (*wire.Session).handleSimpleQuery [derived-ctx] {C19} CtxCarries($ctx, ctx0) && uf("ctx.parent", val($ctx)) == val(ctx0)
+//@   callsite (*wire.Session).handleExecute [derived-ctx] {C19} CtxCarries($ctx, ctx0) && uf("ctx.parent", val($ctx)) == val(ctx0)
+//@   callsite (*wire.Session).handleParse [derived-ctx] {C19} CtxCarries($ctx, ctx0) && uf("ctx.parent", val($ctx)) == val(ctx0)
+//@   callsite (*wire.Session).handleDescribe [derived-ctx] {C19} CtxCarries($ctx, ctx0) && uf("ctx.parent", val($ctx)) == val(ctx0)
+//@   callsite (*wire.Session).handleBind [derived-ctx] {C19} CtxCarries($ctx, ctx0) && uf("ctx.parent", val($ctx)) == val(ctx0)
+//@   callsite (*wire.Session).handleConnTerminate [derived-ctx] {C19} CtxCarries($ctx, ctx0) && uf("ctx.parent", val($ctx)) == val(ctx0)
+//@   ensures [pos-monotone] reader.Buffer.#pos >= old(reader.Buffer.#pos)
 //@   modifies ConnEffects(srv, reader, writer, ctx)
+
+//@ func (*Session).consumeSingleCommand
+//@   props C06 C05 C10 C16 C19 C03 C18 C04
+//@   requires HOK(srv, reader, writer, ctx) && conn != nil && srv.Server.wg.#wgcnt >= 0
+//@   requires [caches-wellformed] forall k :: mapdom(DPC(srv.Portals).portals, k) ==> (DPC(srv.Portals).portals[k] != nil && DPC(srv.Portals).portals[k].statement != nil)
+//@   atreturn [terminate-stops] {C19} (t == 'X' && !old(srv.Server.closing.#aval)) ==> result != nil
+//@   ensures [no-progress-stops] {C04} reader.Buffer.#pos < old(reader.Buffer.#pos) + 5 ==> result != nil
+//@   ensures [admission] {C16} old(srv.Server.closing.#aval) ==> (#nParse == old(#nParse) && #nExec == old(#nExec) && #nTerminate == old(#nTerminate))
+//@   ensures [wg-balanced] {C16} srv.Server.wg.#wgcnt == old(srv.Server.wg.#wgcnt)
+//@   ensures [error-once] #nE <= old(#nE) + 1
+//@   modifies ConnEffects(srv, reader, writer, ctx), srv.Server.wg.#wgcnt
